@@ -332,6 +332,21 @@ func (e *Engine) LoadSpecs(extDir string) error {
 				key = fc.Key
 			}
 			fc.Key = key
+			if fc.IsLemma && fc.RawClaim != "" {
+				// a lemma proved by induction is available to other contracts as an axiom of the same name
+				name := strings.TrimPrefix(fc.Key, "lemma ")
+				binders := fc.RawVars
+				body := fc.RawClaim
+				if fc.Induct != "" {
+					binders = "(" + fc.Induct + " Int) " + binders
+					body = "(=> (>= " + fc.Induct + " 0) " + body + ")"
+				}
+				raw := "(forall (" + binders + ") " + body + ")"
+				if fc.RawPat != "" {
+					raw = "(forall (" + binders + ") (! " + body + " :pattern (" + fc.RawPat + ")))"
+				}
+				e.Axioms = append(e.Axioms, &AxiomDef{Name: name, Raw: raw, Pkg: fp[1], File: fc.File, Line: fc.Line, Src: "lemma " + name + " (proved by induction in this run)", FromLemma: true})
+			}
 			if _, dup := e.Contracts[key]; dup {
 				return fmt.Errorf("%s:%d: duplicate contract for %s", fc.File, fc.Line, key)
 			}
